@@ -88,6 +88,8 @@ let () =
           | [] -> (List.rev acc, "C=CF_DEFAULT", []) in
         let (args, cff, tail) = split [] rest in
         let cf = String.sub cff 2 (String.length cff - 2) in
+        (* A=<0|1>: the client's atomic-mode field when the call was made *)
+        let tail = (match tail with a :: r when String.length a >= 2 && String.sub a 0 2 = "A=" -> nonatomic := (a = "A=0"); r | _ -> tail) in
         let lf = List.nth tail 0 and bf = List.nth tail 1 and nf = List.nth tail 2 in
         let wf = (match List.nth_opt tail 3 with Some w when String.length w >= 2 && String.sub w 0 2 = "W=" -> String.sub w 2 (String.length w - 2) | _ -> "none") in
         let wire = if wf = "none" then [] else String.split_on_char ';' wf in
@@ -116,14 +118,21 @@ let () =
           let got = List.sort compare (List.map (fun b -> hxs (List.map (fun it -> bx (List.hd (String.split_on_char ':' it))) (split_on ',' b))) bats) in
           let want = model_batches ch l0 keys in
           if got = want then ok else "model-batches " ^ String.concat ";" want in
+        let single_failed = failed && List.mem name ["put"; "get"; "del"; "cas"; "scan"; "rscan"; "cksum"] in
         let m = (try
           match name with
+          | _ when single_failed ->
+              (* the request of a single-request call (or one request of a range read) was answered by an error or without a body:
+                 the call returns the error and changes nothing *)
+              if name = "cas" && !nonatomic then "err atomic" else "err injected"
           | "put" -> set (srv_put st (bx (arg 0)) (bx (arg 1)) (n_of_int (int_of_string (arg 2)))); "ok"
           | "get" -> "ok " ^ optv (srv_get st (bx (arg 0)))
           | "ttl" -> "err unsupported"   (* mocktikv has no CmdGetKeyTTL *)
           | "del" -> set (st_del st (bx (arg 0))); "ok"
           | "bput" ->
               let ks = keys_of (arg 0) and vs = keys_of (arg 1) in
+              let nt = if arg 2 = "." then 0 else List.length (String.split_on_char ',' (arg 2)) in
+              if not (batch_put_args_ok (nat_of_int (List.length ks)) (nat_of_int (List.length vs)) (nat_of_int nt)) then "err args" else
               let ts = if arg 2 = "." then List.map (fun _ -> 0) ks else List.map int_of_string (String.split_on_char ',' (arg 2)) in
               let kvs = List.map2 (fun (k, v) t -> (k, { e_val = v; e_ttl = n_of_int t })) (List.combine ks vs) ts in
               if failed then begin
